@@ -107,7 +107,7 @@ Definition Conforms_fields (ftys : list (string * mtype)) (l : list (string * mv
      | (k, v') :: l' =>
          match assoc k ftys with
          | Some t => Conforms t v' /\ go l'
-         | None => False
+         | None => v' = VUndefined /\ go l'
          end
      end) l.
 
@@ -130,18 +130,18 @@ Lemma Conforms_fields_get ftys fields name t v' :
   Conforms_fields ftys fields -> assoc name ftys = Some t -> assoc name fields = Some v' -> Conforms t v'.
 Proof.
   induction fields as [|[k v0] l IH]; cbn [assoc Conforms_fields]; intros H Ht Hv; [discriminate|].
-  destruct (assoc k ftys) as [t0|] eqn:Ek; [|contradiction]. destruct H as [H0 Hl].
   destruct (String.eqb name k) eqn:En.
-  - apply String.eqb_eq in En; subst k. inversion Hv; subst v0. rewrite Ht in Ek; inversion Ek; subst t0. exact H0.
-  - apply IH; assumption.
+  - apply String.eqb_eq in En; subst k. inversion Hv; subst v0. rewrite Ht in H. exact (proj1 H).
+  - apply IH; try assumption. destruct (assoc k ftys); exact (proj2 H).
 Qed.
 
 Lemma Conforms_elems_nth e elems i v' :
-  Conforms_elems e elems -> nth_error elems i = Some v' -> Conforms e v'.
+  Conforms_elems e elems -> vec_get elems i = Some v' -> Conforms e v'.
 Proof.
-  revert i; induction elems as [|v0 l IH]; intros [|i] H Hn; cbn [nth_error] in Hn; try discriminate.
+  revert i; induction elems as [|v0 l IH]; intros i H Hn; cbn [vec_get] in Hn; [discriminate|].
+  destruct (i =? 0).
   - inversion Hn; subst v0. exact (proj1 H).
-  - exact (IH i (proj2 H) Hn).
+  - exact (IH _ (proj2 H) Hn).
 Qed.
 
 Lemma Conforms_entries_get e entries key v' :
@@ -181,7 +181,7 @@ Proof.
         destruct v as [| | | | | |elems| | |]; try discriminate; try (exact (False_ind _ HC)).
         destruct sub as [index| | | |]; try discriminate.
         destruct (usize_try_from index) as [i|]; [|discriminate].
-        unfold vec_get in HE. destruct (nth_error elems (N.to_nat i)) as [v1|] eqn:En; [|discriminate].
+        destruct (vec_get elems i) as [v1|] eqn:En; [|discriminate].
         rewrite Conforms_arr in HC.
         exact (IH _ _ _ _ _ (Conforms_elems_nth _ _ _ _ HC En) HT HE).
       * destruct (ety_eqb sty EBytes); [|discriminate]. inversion Es; subst ty1.
@@ -257,8 +257,9 @@ Proof.
   induction v using mvalue_ind'; intros ty HC; cbn [Conforms conforms] in *; try (subst ty; reflexivity).
   - destruct ty as [| | | | |ftys| | |]; try contradiction.
     induction fields as [|[k v0] l IHl]; [reflexivity|].
-    inversion H as [|? ? H0 Hl]; subst. destruct (assoc k ftys) as [t|]; [|contradiction].
-    destruct HC as [HC0 HCl]. cbn [snd] in H0. rewrite (H0 _ HC0). cbn [andb]. exact (IHl Hl HCl).
+    inversion H as [|? ? H0 Hl]; subst. destruct (assoc k ftys) as [t|].
+    + destruct HC as [HC0 HCl]. cbn [snd] in H0. rewrite (H0 _ HC0). cbn [andb]. exact (IHl Hl HCl).
+    + destruct HC as [HC0 HCl]. subst v0. cbn [is_undefined andb]. exact (IHl Hl HCl).
   - destruct ty as [| | | | | |e| |]; try contradiction.
     induction elems as [|v0 l IHl]; [reflexivity|].
     inversion H as [|? ? H0 Hl]; subst. destruct HC as [HC0 HCl]. rewrite (H0 _ HC0). cbn [andb]. exact (IHl Hl HCl).
@@ -276,9 +277,11 @@ Proof.
     try (destruct ty; try discriminate; reflexivity).
   - destruct ty as [| | | | |ftys| | |]; try discriminate.
     induction fields as [|[k v0] l IHl]; [exact I|].
-    inversion H as [|? ? H0 Hl]; subst. destruct (assoc k ftys) as [t|]; [|discriminate].
-    apply andb_true_iff in HF as [HF0 HFl]. apply andb_true_iff in HC as [HC0 HCl]. cbn [snd] in H0.
-    split; [exact (H0 _ HF0 HC0)|exact (IHl Hl HFl HCl)].
+    inversion H as [|? ? H0 Hl]; subst.
+    apply andb_true_iff in HF as [HF0 HFl]. cbn [snd] in H0.
+    destruct (assoc k ftys) as [t|]; apply andb_true_iff in HC as [HC0 HCl].
+    + split; [exact (H0 _ HF0 HC0)|exact (IHl Hl HFl HCl)].
+    + split; [destruct v0; try discriminate; reflexivity|exact (IHl Hl HFl HCl)].
   - destruct ty as [| | | | | |e| |]; try discriminate.
     induction elems as [|v0 l IHl]; [exact I|].
     inversion H as [|? ? H0 Hl]; subst.
@@ -342,3 +345,28 @@ Proof.
     + destruct sub; try discriminate. destruct (dict_get b entries); [apply IH|discriminate].
   - destruct v; try discriminate. destruct (f (firstn n exprs)); [apply IH|discriminate].
 Qed.
+
+(* ------------------------------------------------------------------ finding C17-valid-on-boolean (fixed in /repo)
+   On the pinned tree pe.signatures[i].valid_on was declared `function(integer) -> integer` and its closure returned
+   Value::Boolean: the premise of access_sound fails for such a value and the conclusion fails with it — the
+   compiler types `valid_on(t) == 1` as an integer comparison and the evaluator gets a boolean. *)
+Local Open Scope string_scope.
+Definition valid_on_type : mtype := TObject [("valid_on", TFunction [[TInteger]] TInteger)].
+Definition valid_on_pinned : mvalue := VObject [("valid_on", VFunction (fun _ => Some (VBoolean true)))].
+Definition valid_on_fixed : mvalue := VObject [("valid_on", VFunction (fun _ => Some (VInteger 1)))].
+Definition valid_on_path : list top := [TopSubfield "valid_on"; TopCall [EInteger]].
+
+Lemma valid_on_pinned_refuted :
+  ~ Conforms valid_on_type valid_on_pinned
+  /\ typechecks valid_on_type valid_on_path = Some TInteger
+  /\ expression_type TInteger = Some EInteger
+  /\ exists p, model_module_expr valid_on_pinned (ops_of valid_on_path) [PInteger 0] = Ok p
+               /\ ~ prim_has_type p EInteger.
+Proof.
+  split; [|split; [reflexivity|split; [reflexivity|]]].
+  - cbn. intros [H _]. specialize (H []). discriminate H.
+  - exists (PBoolean true). split; [reflexivity|]. cbn. tauto.
+Qed.
+
+Lemma valid_on_fixed_conforms : Conforms valid_on_type valid_on_fixed.
+Proof. cbn. split; [intros _; reflexivity|exact I]. Qed.
